@@ -57,7 +57,10 @@ def write_spelling(case, d, st, rng):
             g.serialize(destination=os.path.join(d, 'm2.rdf'), format='xml')
             new = 'm2.rdf'
         elif st.serialisation == 'prefixed':
-            g.bind('ex', EX); g.bind('rr', mapcase.RR); g.bind('rml', mapcase.RML)
+            # the conventional prefix labels: legacy documents bind rml: to the legacy namespace
+            g.bind('ex', EX); g.bind('rr', mapcase.RR)
+            g.bind('rml', 'http://semweb.mmlab.be/ns/rml#' if st.vocab == 'legacy' else mapcase.RML, override=True, replace=True)
+            g.bind('ql', 'http://semweb.mmlab.be/ns/ql#')
             txt = g.serialize(format='turtle')
             open(os.path.join(d, 'm2.ttl'), 'w', encoding='utf-8').write(txt)
             new = 'm2.ttl'
